@@ -166,8 +166,11 @@ def handle_exception(
             exception,
         )
 
-        # Get attempt count from message (0-indexed) and increment
-        current_attempts = message.attempts or 0
+        # Consecutive transient failures so far. This is counted in retry_count,
+        # which travels in the message payload: `attempts` is re-derived from the
+        # queue row on every delivery (each retry is a NEW row starting at 0), so
+        # a budget kept there restarts on every round trip and never runs out.
+        current_attempts = message.retry_count or 0
         max_attempts = message.max_attempts or 10
 
         if current_attempts + 1 < max_attempts:
@@ -221,6 +224,7 @@ def _handle_transient_retry(
 
     # Create new message with incremented attempt count
     retry_message = message.copy_with_attempts(next_attempt)
+    retry_message.retry_count = next_attempt
 
     # Check for context_update from TransientError (stateful retries)
     # Note: bulkman wraps exceptions in BulkheadError, so we need to
